@@ -207,6 +207,66 @@ Proof.
   f_equal. apply words_of_le32; [exact Hws|]. rewrite map_length, length_le32_flat. lia.
 Qed.
 
+(* ---- words built from the description are accepted; a word that breaks its member is rejected ---- *)
+
+Fixpoint words_typed (is : list iop) (ws : list Z) : bool :=
+  match is, ws with
+  | [], [] => true
+  | i :: is', w :: ws' =>
+    is_i32 w && match check_int i w with Ok _ => true | _ => false end && words_typed is' ws'
+  | _, _ => false
+  end.
+
+Lemma decode_words_typed is : forall ws, words_typed is ws = true ->
+  exists vs, decode_words is ws = ([], Ok vs).
+Proof.
+  induction is as [|i is IH]; intros [|w ws] H; cbn [words_typed] in H; try discriminate.
+  - exists []. reflexivity.
+  - apply andb_true_iff in H as [H Hr]. apply andb_true_iff in H as [_ Hc].
+    destruct (check_int i w) as [v| | |] eqn:E; try discriminate.
+    destruct (IH ws Hr) as [vs Hvs]. exists (v :: vs). cbn [decode_words]. rewrite E, Hvs. reflexivity.
+Qed.
+
+Lemma forallb_i32_typed is : forall ws, words_typed is ws = true -> forallb is_i32 ws = true.
+Proof.
+  induction is as [|i is IH]; intros [|w ws] H; cbn [words_typed] in H; try discriminate; [reflexivity|].
+  apply andb_true_iff in H as [H Hr]. apply andb_true_iff in H as [Hw _].
+  cbn [forallb]. rewrite Hw, (IH ws Hr). reflexivity.
+Qed.
+
+Theorem obj_roundtrip o ws pad : wf_ocodec o = true -> no_bool o = true -> o_dec o <> [] ->
+  words_typed (o_dec o) ws = true ->
+  exists vs, decode_obj o ws = (Ok vs, false) /\ encode_obj o vs pad = Ok ws.
+Proof.
+  intros Hwf Hnb Hne Hw. destruct (decode_words_typed _ _ Hw) as [vs Hd].
+  assert (Hdo : decode_obj o ws = (Ok vs, false)) by (unfold decode_obj; rewrite Hd; reflexivity).
+  exists vs. split; [exact Hdo|].
+  apply obj_words; try assumption. apply (forallb_i32_typed (o_dec o)), Hw.
+Qed.
+
+Lemma decode_words_reject ipre : forall pre i is w post e, words_typed ipre pre = true ->
+  check_int i w = Err e ->
+  snd (decode_words (ipre ++ i :: is) (pre ++ w :: post)) = Err e.
+Proof.
+  induction ipre as [|i0 ipre IH]; intros [|w0 pre] i is w post e H Hc; cbn [words_typed] in H; try discriminate.
+  - cbn [app decode_words]. rewrite Hc. reflexivity.
+  - apply andb_true_iff in H as [H Hr]. apply andb_true_iff in H as [_ H0].
+    destruct (check_int i0 w0) as [v| | |] eqn:E; try discriminate.
+    cbn [app decode_words]. rewrite E.
+    specialize (IH pre i is w post e Hr Hc).
+    destruct (decode_words (ipre ++ i :: is) (pre ++ w :: post)) as [r [vs| | |]]; cbn [snd] in *; try discriminate; exact IH.
+Qed.
+
+Theorem obj_rejects o ipre i is pre w post e : o_dec o = ipre ++ i :: is ->
+  words_typed ipre pre = true -> check_int i w = Err e ->
+  decode_obj o (pre ++ w :: post) = (Err e, false).
+Proof.
+  intros Ho Hp Hc. unfold decode_obj. rewrite Ho.
+  pose proof (decode_words_reject ipre pre i is w post e Hp Hc) as H.
+  destruct (decode_words (ipre ++ i :: is) (pre ++ w :: post)) as [r [vs| | |]]; cbn [snd] in H; try discriminate.
+  injection H as ->. reflexivity.
+Qed.
+
 (* ---- K14: the objects whose struct has a bool field ---- *)
 From Coq Require Import String.
 
